@@ -136,3 +136,27 @@ package transport
 //@   modifies Options.*
 //@   ensures fresh_options: result0 != nil && fresh(result0)
 //@   ensures_assumed implies(result1 == nil, result0 != nil && result0.Context != nil && ctxdone(result0.Context) == ctxdone(ctx))
+
+// no mutable package-level state (C12, and every property whose plan touches this package)
+//@ property C12
+//@ globals immutable
+
+// C17 / C12: the wrapper objects are configuration fixed by NewTransport; their declared method
+// sets are exactly the contracted ones (a method added later - a fast path reached through an
+// interface assertion - needs a contract), and they have no other state.
+//@ property C17 C12
+//@ methods bufConn: Close Flush RawTransport Read Write Writev
+//@ methods bufReadConn: Flush RawTransport Read Writev
+//@ methods bufWriteConn: Flush RawTransport Write Writev
+//@ methods rawConn: Flush RawTransport Writev
+//@ field bufConn.* covered
+//@ field bufConn.Conn immutable NewTransport
+//@ field bufConn.rw immutable NewTransport
+//@ field bufReadConn.* covered
+//@ field bufReadConn.Conn immutable NewTransport
+//@ field bufReadConn.reader immutable NewTransport
+//@ field bufWriteConn.* covered
+//@ field bufWriteConn.Conn immutable NewTransport
+//@ field bufWriteConn.writer immutable NewTransport
+//@ field rawConn.* covered
+//@ field rawConn.Conn immutable NewTransport
